@@ -767,7 +767,7 @@ pub proof fn lemma_range_contents(lo: int, hi: int, s: int, i: int)
 //@ fn src/structures/paging/page.rs | impl<S: PageSize> PageRange<S> | is_empty
 //@ obligation C07 C07.PageRange_is_empty.iff_no_items
 //@ A
-    requires valid_size(S::SIZE), wf_range(*self),
+    requires valid_size(S::SIZE), wf_page(self.start), wf_page(self.end),
     ensures r == (self.start.start_address.0 >= self.end.start_address.0), r == (view_range(*self).len() == 0),
 //@ proof
         lemma_valid_size(S::SIZE);
